@@ -97,6 +97,10 @@ class AdversarialSource(object):
                 others = [x for t, x in self.last_by_thread.items() if t != tid]
                 if others and self.r.random() < cfg.get("p", 0.7):
                     v = others[self.r.randrange(len(others))]
+            elif mode == "replay_old":
+                # hand out, again, values issued long ago (the first few of the process)
+                if len(self.history) > cfg.get("after", 64) and self.r.random() < cfg.get("p", 0.3):
+                    v = self.history[self.r.randrange(min(8, len(self.history)))]
             elif mode == "boundary":
                 if self.r.random() < 0.5:
                     v = self.r.choice([b"\x00\x00\x00\x00", b"\xff\xff\xff\xff",
@@ -157,14 +161,26 @@ class C15(Check):
                 else:
                     ops.append(["hdr_reuse"])       # explicit header copied from an earlier request
             threads.append(ops)
-        mode = rng.choice(["honest", "lowent", "constant", "cycle", "echo", "echo", "boundary"])
+        mode = rng.choice(["honest", "lowent", "constant", "cycle", "echo", "echo", "boundary", "replay_old"])
+        long_history = (index % 40 == 39)
+        if long_history:
+            # a long process life: thousands of requests, then the source replays early values
+            threads = [[["bulk", rng.choice([4500, 6000])], ["gen"], ["typed", 0], ["gen"], ["typed", 1], ["gen"], ["gen"]]]
+            mode = "replay_old"
         src = {"mode": mode, "seed": rng.getrandbits(32), "k": rng.choice([2, 3, 4, 8]),
                "max_repeat": rng.choice([1, 2, 4, 8, 16]), "p": rng.choice([0.5, 0.8, 1.0])}
+        if long_history:
+            src.update({"after": 4400, "p": 0.9, "max_repeat": 6})
         pol = rng.choice(["sync", "line", "line", "opcode", "opcode"])
+        if long_history:
+            pol = "sync"
         sched = {"policy": pol, "p_sync": rng.choice([0.1, 0.3, 0.6]),
                  "p_line": 0.0 if pol == "sync" else rng.choice([0.02, 0.1, 0.3]),
                  "opcode": pol == "opcode", "quantum": 1e-6}
-        return {"threads": threads, "urandom": src, "sched": sched}
+        scn = {"threads": threads, "urandom": src, "sched": sched}
+        if long_history:
+            scn["max_steps"] = 12_000_000
+        return scn
 
     def shrink(self, scn):
         import copy
@@ -185,7 +201,11 @@ class C15(Check):
         # simplify ops
         for i, ops in enumerate(th):
             for j, op in enumerate(ops):
-                if op[0] != "gen":
+                if op[0] == "bulk" and op[1] > 1:
+                    c = copy.deepcopy(scn)
+                    c["threads"][i][j] = ["bulk", op[1] // 2]
+                    yield c
+                elif op[0] != "gen":
                     c = copy.deepcopy(scn)
                     c["threads"][i][j] = ["gen"]
                     yield c
@@ -234,6 +254,13 @@ class C15(Check):
                     kind = op[0]
                     explicit = False
                     given = None
+                    if kind == "bulk":
+                        for _ in range(op[1]):
+                            m = DiameterRequest()
+                            created.append({"t": tid, "op": oi, "kind": "gen", "hbh": m.header.hop_by_hop,
+                                            "e2e": m.header.end_to_end, "explicit": False, "given": None,
+                                            "draws": 2, "step": sim.steps})
+                        continue
                     if kind == "gen":
                         m = DiameterRequest()
                     elif kind == "typed":
